@@ -1,4 +1,5 @@
 """C09 per-module event-source registry (src.c, ps.c subscriptions)."""
+import os
 from vf.runner import Job, fl
 from vf.fp import core_fp, SRC_DTOR, SUB_DTOR
 
@@ -67,7 +68,7 @@ KEYS = {
 }
 
 
-def reg_job(kind, npre, shape, op, cls=None, k2=None, extra=None, w=None, timeout=600):
+def reg_job(kind, npre, shape, op, cls=None, k2=None, extra=None, w=None, timeout=int(os.environ.get('C09_TIMEOUT', 600))):
     nm, cmpf = KINDS[kind]
     ks = KEYS[nm]
     d = {"KIND": kind, "NPRE": npre, "SHAPE": shape, "OP": op, "VF_MANAGE_SRCS": fl("manage_srcs", "mod.c"),
@@ -93,7 +94,7 @@ def reg_job(kind, npre, shape, op, cls=None, k2=None, extra=None, w=None, timeou
                          "masks, task function)", "private descriptor numbers", "which sources are library-internal"],
                bounds="pre-state %s (%d sources), one %s, key class %s (identifying values are per-job constants)"
                       % (SHAPES[(npre, shape)], npre, OPS[op], cls),
-               timeout=timeout, mem_gb=12)
+               timeout=timeout, mem_gb=12)  # REGJOB
 
 
 def op_keys(nm, npre, shape):
